@@ -109,6 +109,7 @@ func c02Rules(c *Ctx) {
 	ruleAssignPhases(c)
 	ruleOperandOnce(c, []string{"place_ops.go", "place_set.go", "place_shifts.go", "place_set_value.go", "var_ops.go", "var_set.go", "var_shifts.go", "var_set_value.go"}, "E2-once")
 	ruleIncDec(c)
+	ruleNilableSetter(c, "P5-blank-target")
 	ruleIntsGuard(c, "fast", "A4-ints-guard")
 	ruleNoCellReplacement(c, []string{"var_set.go", "var_set_value.go", "var_ops.go", "var_shifts.go", "place_set.go", "place_ops.go", "place_shifts.go", "place_set_value.go"}, "V1-no-cell-replacement")
 	ruleAccessorFiles(c, "fast", c02Files, "A2-accessor")
@@ -128,7 +129,7 @@ func init() {
 		Explanation: "Decided, exhaustively over the ~4 000 statement closures of var_*.go / place_*.go / assignment.go: U sibling uniformity per kind-family; A3 slot accessed on the frame its depth arm names; A4 Ints/Vals storage matches the IntBind guard and every function that addresses a variable's unboxed slot is entered only for IntBind variables (in-function arm, early return, or every call site under a class test); A2 accessor category; " +
 			"A5 setVar/setPlace dispatch tables injective and complete (every specialisation with the family signature is wired) and each closure applies exactly the Go operator of its arm; A6 right operand from the value parameter, left from the place; A7 constant shortcuts are identities for every category that reaches them (including delegations such as x /= -1 -> x *= -1 and compile-time rejections); A7s an identity shortcut on a map element still evaluates map and key once and writes the element back (found F41); A6m in every statement closure of the place compilers the container is evaluated before the key and both before the right-hand side; M1 no read of a map element through reflect uses the result of MapIndex without an IsValid test (found F40); A8 power-of-two division shapes; " +
 			"S1 every statement closure returns Code[IP] of the environment it returns after exactly one advance of IP (or Code[t] after IP = t) on every path; E2 every captured operand closure (place, map key, right-hand side) is evaluated at most once per path; " +
-			"P1-P4 two-phase multiple assignment: left operands, then right-hand expressions (copied with dup), then stores, map keys copied, two-place fast path only without map keys; I1 ++/-- compile as += / -= the constant one. " +
+			"P1-P4 two-phase multiple assignment: left operands, then right-hand expressions (copied with dup), then stores, map keys copied, two-place fast path only without map keys; P5 a setter that is nil for the blank identifier is called only under a nil test (found F51); I1 ++/-- compile as += / -= the constant one. " +
 			"Not decided: which specialisation is selected for a given program (Place construction), map-element read-modify-write inside reflect, exotic evaluation-order mixes beyond the call-order rule.",
 		Assumptions: []string{"Go operator semantics on basic types", "computation at the category's widest type followed by a truncating store equals computation at the narrow type (two's complement)", "reflect Set*/MapIndex/SetMapIndex as documented"},
 		Rules:       []func(*Ctx){c02Rules},
@@ -142,6 +143,7 @@ func init() {
 			{Name: "sub-becomes-add-boxed-int", File: "fast/var_ops.go", Old: "lhs.SetInt(lhs.Int() - int64(val))", New: "lhs.SetInt(lhs.Int() + int64(val))", Nth: 1, Canary: true},
 			{Name: "ip-not-advanced", File: "fast/var_set.go", Old: "= val\n\n\t\t\t\t\t\tenv.IP++\n\t\t\t\t\t\treturn env.Code[env.IP], env", New: "= val\n\n\t\t\t\t\t\treturn env.Code[env.IP], env", Nth: 1},
 			{Name: "map-key-evaluated-twice", File: "fast/place_ops.go", Old: "lhs.SetMapIndex(key, xr.ValueOf(result))", New: "lhs.SetMapIndex(keyfun(env), xr.ValueOf(result))", Nth: 30},
+			{Name: "blank-target-takes-two-place-path", File: "fast/assignment.go", Old: " &&\n\t\tassign[0].hasSetter() && assign[1].hasSetter() {", New: " {"},
 			{Name: "stores-before-rhs", File: "fast/assignment.go", Old: "val1 := dup(efuns[1](env))\n\t\t\t\tassign[0].setvar(env, val0)", New: "assign[0].setvar(env, val0)\n\t\t\t\tval1 := dup(efuns[1](env))"},
 			{Name: "key-copy-dropped", File: "fast/assignment.go", Old: "if tmp = a.placekey(env); tmp.CanSet() {\n\t\t\t\ttmp = tmp.Convert(tmp.Type())\n\t\t\t}\n\t\t\tkeys[i] = tmp", New: "keys[i] = a.placekey(env)"},
 			{Name: "intbinds-arms-swapped", File: "fast/var_set.go", Old: "intbinds := va.Desc.Class() == IntBind", New: "intbinds := va.Desc.Class() != IntBind", Nth: 1},
@@ -175,6 +177,8 @@ func init() {
 		Assumptions: []string{"a frame is reachable after its call only through closures created in literals over it or through &Ints pointers", "reflect.MakeFunc / ValueOf retain the closure they are given"},
 		Rules: []func(*Ctx){func(c *Ctx) {
 			ruleMarkBeforeEscape(c, "fast", "M1-mark-before-escape")
+			ruleEllipsisCallSlice(c, "E5-ellipsis-callslice")
+			ruleDistinctPickedElements(c, "Z2-distinct-picked-closures", "fast")
 			ruleNewFreePairing(c, "fast", "N1-new-free")
 			ruleFuncBodyFrame(c, "fast", "N2-funcbody-frame")
 			ruleInteriorPointers(c, "fast", "Q1-interior-pointer")
@@ -620,6 +624,7 @@ func init() {
 		Explanation: "Decided: S1 every one of the ~3 800 statement closures of package fast returns Code[IP] of the environment it returns after exactly one advance of IP (or Code[t] after IP = t) on every path — an IP that is not advanced, or a statement taken from another frame than the one returned, is the generic control-flow bug; " +
 			"J1 in jumpOut and every other depth-specialised jump the frame whose IP is set and whose code is indexed is the one the arm names; J2 break/continue/goto stop at the enclosing function, count the frames to leave after each level and pass the count to jumpOut (D3: the compiler-chain walk advances one link per iteration); " +
 			"J3 every late-bound jump target (jump.Cond/Post/Break/..., LoopInfo.Break/Continue) is assigned a code position on every path to the end of its compile function; J4 Comp.Stmt has a case for every statement node of go/ast; U sibling uniformity of the kind-specialised switch / range / select closures (including the arms that are alone in their category, compared modulo storage class); A3 a statement closure that walks Outer links in a counted loop up to the frame of a variable (the count derived from the variable's Upn) accesses that variable's slot on the frame it reached, never on the current one (found F32 in rangeString); G1 the places a for-range statement assigns to (returned by rangeVars) are only tested and assigned with SetPlace(p, ASSIGN, ...), never read, updated in place or re-bound to the loop's own counter, and each assignment is emitted after jump.Start and after an exit test (a statement that can jump to jump.Break) on every path, a direct store being in the continuing branch of that test (found F29, F33); G2 each iteration of a range over a string decodes the first rune of s[offset:] with utf8.DecodeRuneInString and advances the offset by the width it returned; J2 also: the scope of the function body itself is searched for a break / goto target before the search stops (found F31; a continue target always has a scope of its own, clause continue-owner); J5 HasLabel's bisection is a membership test (slice[i] == key) and every ThisLabels slice was sorted before it was installed; S2 the closed-channel flag of a select receive is the recvOK result of reflect.Select kept in a slot of its own and read by both two-valued receive forms (found F30); S3 each select clause compiler ends with the jump to the select's Break target in the same frame; S4 expression switch: the direct-dispatch table (GotoMap) receives a constant only while every earlier case expression was constant (monotone flag, single writer), the table builders read GotoMap and never ConstMap, the jump into default is emitted after all clauses and a default reached in sequence skips its body, every clause header is exactly one statement slot and fallthrough advances by that slot plus one, and a case body ends with fallthrough exactly when its last statement is one, else with the jump to Break in the same frame. " +
+			"Y8 a local that is assigned only under a condition (the dynamic type of a possibly nil tag) is used only under a correlated test (found F52). " +
 			"Not decided: the sequence of executed statements as such (switch dispatch optimisations, fallthrough, range and select semantics).",
 		Assumptions: []string{"the executor runs the statement returned by the previous one (C13 rules)"},
 		Rules: []func(*Ctx){func(c *Ctx) {
@@ -638,12 +643,15 @@ func init() {
 			ruleReturnParallel(c, "R2-return-parallel")
 			ruleLabelMembership(c, "J5-labels")
 			ruleRangeStringDecode(c, "G2-range-string-decode")
+			ruleConditionalInit(c, "Y8-conditional-init", "fast", nil)
+			ruleDistinctPickedElements(c, "Z2-distinct-picked-closures", "fast")
 			c.Floor("G1-range-places", 8)
 			ruleUniformity(c, "fast", []string{"switch.go", "switch2.go", "switch_type.go", "range.go", "range_map.go", "select.go", "statement.go"}, "U-uniform")
 			c.Floor("S1-stmt-protocol", 2300)
 			c.Floor("U-uniform", 25)
 		}},
 		Mutants: []Mutant{
+			{Name: "nil-tag-type-dereferenced", File: "fast/switch_type.go", Old: "if vt == nil || rtype.Kind() != r.Interface || !vt.Implements(rtype) {", New: "if rtype.Kind() != r.Interface || !vt.Implements(rtype) {"},
 			{Name: "jumpout-depth1-stays-in-frame", File: "fast/statement.go", Old: "\t\tstmt = func(env *Env) (Stmt, *Env) {\n\t\t\tenv = env.Outer\n\t\t\tip := *ip\n", New: "\t\tstmt = func(env *Env) (Stmt, *Env) {\n\t\t\tip := *ip\n", Canary: true},
 			{Name: "for-break-target-unset", File: "fast/statement.go", Old: "\tjump.Break = c.Code.Len()\n\n\tc = c.popEnvIfLocalBinds(initLocals, &initBinds, node.Init)\n}\n\n// Go compiles", New: "\n\tc = c.popEnvIfLocalBinds(initLocals, &initBinds, node.Init)\n}\n\n// Go compiles", Canary: true},
 			{Name: "break-crosses-function", File: "fast/statement.go", Old: "\t\tif o.Func != nil {\n\t\t\t// do not cross function boundaries: the function body itself was the last scope to search\n\t\t\tbreak\n\t\t}\n", New: "", Nth: 1},
